@@ -3,6 +3,7 @@ package main
 import (
 	"fmt"
 	"go/types"
+	"sort"
 	"strconv"
 	"strings"
 
@@ -629,6 +630,14 @@ func (eng *Engine) VerifyFunc(fn *ssa.Function, fc *FuncContract) (res *FuncResu
 	} else if ok && !seen["C14"] {
 		res.Tags = append(res.Tags, "C14")
 	}
+	if t, ok := fc.Opts["tags"]; ok {
+		for _, x := range splitComma(t) {
+			if !seen[x] {
+				seen[x] = true
+				res.Tags = append(res.Tags, x)
+			}
+		}
+	}
 	ex := newExec(eng, vc, fn, fc)
 	defer func() {
 		if r := recover(); r != nil {
@@ -733,16 +742,24 @@ func (ex *Exec) frameObligations(fr *frame, fc *FuncContract, entry, final *Stat
 	if all {
 		return
 	}
-	if final.epoch != entry.epoch {
+	if final.epoch != entry.epoch && len(final.mix) == 0 {
 		ex.vc.Oblige(&Obligation{Name: oname + ":havoc", Kind: "frame", Tags: ex.contractTags(), Guard: reach, Goal: TFalse, Func: relName(fr.fn), Note: "body calls code with unknown effects; the modifies clause cannot be established"})
 		return
 	}
-	for _, name := range sortedKeys(final.heap) {
+	names := sortedKeys(final.heap)
+	if len(final.mix) > 0 {
+		names = nil
+		for k := range ex.compSorts {
+			names = append(names, k)
+		}
+		sort.Strings(names)
+	}
+	for _, name := range names {
 		if name == "alive" || strings.HasPrefix(name, "IT.") {
 			continue
 		}
 		s := ex.compSorts[name]
-		cur := final.heap[name]
+		cur := ex.comp(final, name, s)
 		old := ex.comp(entry, name, s)
 		if sameTerm(cur, old) {
 			continue
